@@ -78,7 +78,7 @@ def layout_sig(fl):
     return ' '.join(out)
 
 
-def build_program(rng, isa, zones_pre, nstmt, max_addr):
+def build_program(rng, isa, zones_pre, nstmt, max_addr, twin=None):
     """-> (lines, labels, isa) ; lines: [{'k','text',...}] with model addr/size/bytes; None if nothing could be built."""
     addr_bits = isa['general']['address_size']
     zt = layout.zone_table(addr_bits, (isa.get('predefined') or {}).get('memory_zones'))
@@ -134,7 +134,45 @@ def build_program(rng, isa, zones_pre, nstmt, max_addr):
     while kept and kept[-1]['k'] != 'instr':
         kept.pop()
     labels = {l['name']: l['addr'] for l in kept if l['k'] == 'label'}
+    # twin statements: the same statement twice, its numeric operand written as two constants whose names differ only in
+    # letter case and whose values differ - no emitted bit may depend on an earlier statement
+    consts = []
+    if twin is None:
+        twin = rng.random() < 0.4
+    if twin:
+        import copy
+        simple = ('numeric', 'address', 'register', 'enumeration', 'numeric_bytecode', 'indirect_register', 'numeric_enumeration', 'empty')
+        last = kept[-1]
+        end = last['addr'] + last['size']
+        for ln in [l for l in kept if l['k'] == 'instr']:
+            stmt = ln['stmt']
+            vconf = encode.variants_of(isa, stmt['mn'])[stmt['variant']]
+            confs, _ = encode.operand_confs(isa, vconf, stmt.get('spec'), [o['id'] for o in stmt['ops']])
+            if not all(c['type'] in simple and not (c.get('argument') or {}).get('slice_lsb') for c in confs):
+                continue
+            ks = [k for k, c in enumerate(confs) if c['type'] in ('numeric', 'address') and stmt['ops'][k].get('val') is not None]
+            if not ks or end + ln['size'] - 1 > top:
+                continue
+            k = ks[0]
+            v1 = stmt['ops'][k]['val']
+            for v2 in (v1 ^ 1, v1 + 1, v1 - 1, v1 ^ 2):
+                st2 = copy.deepcopy(stmt)
+                st2['ops'][k]['val'] = v2
+                try:
+                    encode.encode(isa, st2, end, zones)
+                except (encode.Reject, encode.DontCare):
+                    continue
+                n1, n2 = rng.choice([('Twn_q', 'twn_q'), ('KVAL', 'kval'), ('Lim_x', 'LIM_X')])
+                stmt['ops'][k]['text'] = n1
+                st2['ops'][k]['text'] = n2
+                consts = [(n1, v1), (n2, v2)]
+                kept.append({'k': 'instr', 'stmt': st2, 'addr': end, 'size': ln['size'], 'twin': True})
+                break
+            if consts:
+                break
     out = []
+    for nm, v in consts:
+        out.append({'k': 'const', 'text': f'{nm} = {v}'})
     for ln in kept:
         if ln['k'] == 'org':
             out.append({'k': 'org', 'text': f'.org {gen_isa.render_value(rng, ln["addr_val"])}', 'addr': ln['addr_val']})
@@ -156,7 +194,8 @@ def build_program(rng, isa, zones_pre, nstmt, max_addr):
             text = gen_isa.render_statement(rng, isa, stmt, labels, sp)
             out.append({'k': 'instr', 'text': text, 'addr': ln['addr'], 'size': ln['size'], 'bytes': b.hex(),
                         'fields': [[v, n, al, e, k] for v, n, al, e, k in fl],
-                        'tags': sorted(stmt_tags(isa, stmt, fl, ln['addr'], ln['size'], target_dir)),
+                        'tags': sorted(stmt_tags(isa, stmt, fl, ln['addr'], ln['size'], target_dir) |
+                                       ({'twin-statement:operand-names-differ-in-case-only'} if ln.get('twin') else set())),
                         'sig': layout_sig(fl)})
     return out
 
@@ -211,7 +250,8 @@ class C01(core.Check):
         ['prefix-codes>=2', 'reverse_bytecode_order/>=2-codes', 'reverse_argument_order/>=2-args', 'opcode-suffix',
          'opcode-endian!=default', 'relative:from-start/forward', 'relative:from-start/backward',
          'relative:from-end/forward', 'relative:from-end/backward', 'negative-in-non-byte-multiple-field',
-         'address:sliced', 'relative:curly', 'decorator:prefix', 'decorator:postfix', 'specific-operands'] +
+         'address:sliced', 'relative:curly', 'decorator:prefix', 'decorator:postfix', 'specific-operands',
+         'twin-statement:operand-names-differ-in-case-only'] +
         [f'grid:{c}/{e}/{a}' for c in ('1', '2-7', '8', '9-15', '16', '17-31', '32', '33-63', '64')
          for e in ('big', 'little') for a in ('aligned', 'packed')])}
 
